@@ -1,5 +1,6 @@
 import TexelVerif.Chess.SpecLemmas
 import TexelVerif.Chess.KingRay
+import TexelVerif.Chess.TexelGenEvade
 /-!
 # C01 — generated legal moves are exactly the legal moves of chess
 
@@ -79,6 +80,119 @@ theorem accepts_sound (p : Pos) (d : GenData) (h : genCheck p d = none) :
 theorem king_ray_core (occ : Ray.Pt → Bool) (k d f t : Ray.Pt) (hd : d ≠ (0,0)) (n : Nat)
     (hnv : ¬ Ray.visible occ k d f) (hc : Ray.clear (Ray.occAfter occ f t) k d n) : Ray.clear occ k d n :=
   Ray.clear_before_of_clear_after occ k d f t hd n hnv hc
+
+/-! ## The algorithms of moveGen.cpp themselves (model: `Chess/TexelGen.lean`, namespace `Chess.Texel`)
+
+The model follows the C++ statement by statement on bitboards (`BitVec 64`) derived from the board; it is tied to
+the real `MoveGen` by a differential run on every generated position (same move order, same verdicts).  The
+hypotheses: `ValidB` (piece codes 0..12), `KingAt` (the mover's king on `k` and nowhere else — `k` is
+`pos.getKingSq(wtm)`), `EpEmpty` (the en-passant square is empty); all three are enforced by `readFEN`, preserved by
+`makeMove` (C02) and re-checked by the driver on every tested position (`Texel.genWFb`). -/
+
+/-- `MoveGen::sqAttacked(pos, sq)`: `sq` is attacked by the side not to move, per the specification -/
+theorem texel_sqAttacked_eq (b : Board) (hv : Texel.ValidB b) (w : Bool) (t : Sq) :
+    Texel.sqAttacked b w t (Texel.occBB b) = attackedBy b (!w) t := Texel.sqAttacked_spec b hv w t
+
+/-- general form used inside `isLegal`: piece bitboards of `b`, any occupancy `occ`, against any board `b'` that has
+    this occupancy and these enemy pieces away from the target square -/
+theorem texel_sqAttacked_general (b b' : Board) (w : Bool) (t : Sq) (occ : PosImpl.BB)
+    (H1 : ∀ q, q ≠ t → Texel.tst occ q = (b'[q] != 0))
+    (H2 : ∀ s, s ≠ t → (own (!w) b[s] = true ∨ own (!w) b'[s] = true) → b'[s] = b[s]) :
+    Texel.sqAttacked b w t occ = attackedBy b' (!w) t := Texel.sqAttacked_eq b b' w t occ H1 H2
+
+/-- `MoveGen::inCheck` is the specification's `inCheck` -/
+theorem texel_inCheck_eq (b : Board) (hv : Texel.ValidB b) (w : Bool) : Texel.inCheck b w = inCheck b w :=
+  Texel.inCheck_eq b hv w
+
+/-- the sliding attack set of a rook depends on the occupancy only through the relevant-occupancy mask
+    (`rMasks[sq]`: ray squares without the last square of each ray) -/
+theorem rook_ray_depends_on_inner_mask (s : Sq) (occ : PosImpl.BB) :
+    Texel.rookAttacks s occ = Texel.rookAttacks s (occ &&& Texel.rookInner s) := Texel.rookAttacks_inner s occ
+
+theorem bishop_ray_depends_on_inner_mask (s : Sq) (occ : PosImpl.BB) :
+    Texel.bishopAttacks s occ = Texel.bishopAttacks s (occ &&& Texel.bishopInner s) := Texel.bishopAttacks_inner s occ
+
+/-- **Lifting the table comparison to all 2^64 occupancies.**  `BitBoard::rookAttacks(sq, occ)` is
+    `rTables[sq][f(occ & rMasks[sq])]` (bitBoard.hpp:311-316); if the table agrees with the ray walk on every subset of
+    the mask (what the check enumerates: all 102 400 + 5 248 subsets in the thorough tier) it agrees on every occupancy. -/
+theorem rook_table_lift (impl tbl : Sq → PosImpl.BB → PosImpl.BB)
+    (hshape : ∀ s occ, impl s occ = tbl s (occ &&& Texel.rookInner s))
+    (htbl : ∀ s sub, sub &&& Texel.rookInner s = sub → tbl s sub = Texel.rookAttacks s sub) :
+    ∀ s occ, impl s occ = Texel.rookAttacks s occ := by
+  intro s occ
+  rw [hshape, htbl s _ (by rw [BitVec.and_assoc, BitVec.and_self]), ← Texel.rookAttacks_inner]
+
+theorem bishop_table_lift (impl tbl : Sq → PosImpl.BB → PosImpl.BB)
+    (hshape : ∀ s occ, impl s occ = tbl s (occ &&& Texel.bishopInner s))
+    (htbl : ∀ s sub, sub &&& Texel.bishopInner s = sub → tbl s sub = Texel.bishopAttacks s sub) :
+    ∀ s occ, impl s occ = Texel.bishopAttacks s occ := by
+  intro s occ
+  rw [hshape, htbl s _ (by rw [BitVec.and_assoc, BitVec.and_self]), ← Texel.bishopAttacks_inner]
+
+/-- the generator's sliding attack sets over the board's occupancy are the specification's ray walk -/
+theorem texel_rookAttacks_spec (b : Board) (hv : Texel.ValidB b) (s t : Sq) :
+    Texel.tst (Texel.rookAttacks s (Texel.occBB b)) t = rookDirs.any fun dd => rayReach b s t dd.1 dd.2 := by
+  simp only [rookDirs, List.any_cons, List.any_nil, Bool.or_false, Texel.rookAttacks, Texel.tst_or,
+    Texel.ray_eq_rayReach (Texel.occBB b) b (Texel.tst_occBB b hv), Bool.or_assoc]
+
+theorem texel_bishopAttacks_spec (b : Board) (hv : Texel.ValidB b) (s t : Sq) :
+    Texel.tst (Texel.bishopAttacks s (Texel.occBB b)) t = bishDirs.any fun dd => rayReach b s t dd.1 dd.2 := by
+  simp only [bishDirs, List.any_cons, List.any_nil, Bool.or_false, Texel.bishopAttacks, Texel.tst_or,
+    Texel.ray_eq_rayReach (Texel.occBB b) b (Texel.tst_occBB b hv), Bool.or_assoc]
+
+/-- **`MoveGen::isLegal`** (all five paths of moveGen.cpp:621-659: in-check reject, slow path, king step and castling with
+    the king lifted off, king-ray shortcut, same-ray shortcut): for a pseudo-legal move, called with the correct
+    in-check flag, it returns "the mover's king is not attacked after the move" -/
+theorem texel_isLegal_eq (p : Pos) (k : Sq) (hv : Texel.ValidB p.b) (hk : Texel.KingAt p.b p.wtm k) (m : Mv)
+    (hp : pseudo p m = true) :
+    Texel.isLegal p k m (inCheck p.b p.wtm) = !inCheck (apply p m).b p.wtm := Texel.isLegal_eq p k hv hk m hp
+
+/-- …so `pseudo ∧ isLegal` is the specification's legality predicate -/
+theorem texel_isLegal_legalB (p : Pos) (k : Sq) (hv : Texel.ValidB p.b) (hk : Texel.KingAt p.b p.wtm k) (m : Mv) :
+    (pseudo p m && Texel.isLegal p k m (inCheck p.b p.wtm)) = legalB p m := Texel.isLegal_legalB p k hv hk m
+
+/-- **`MoveGen::removeIllegal`** on a list of pseudo-legal moves keeps, in order, exactly those after which the mover's
+    king is not attacked (king-ray shortcut of moveGen.cpp:574-618 included) -/
+theorem texel_removeIllegal_eq (p : Pos) (k : Sq) (hv : Texel.ValidB p.b) (hk : Texel.KingAt p.b p.wtm k) (l : List Mv)
+    (hl : ∀ m ∈ l, pseudo p m = true) :
+    Texel.removeIllegal p k l = l.filter fun m => !inCheck (apply p m).b p.wtm := Texel.removeIllegal_eq p k hv hk l hl
+
+/-- **`MoveGen::pseudoLegalMoves`** (moveGen.cpp:48-141) generates exactly the moves obeying the movement rules:
+    sliders/knights/king by attack masks, castling condition by condition, pawns by shifts and file/row masks -/
+theorem texel_pseudoLegal_iff (p : Pos) (k : Sq) (h : Texel.GenWF p k) (m : Mv) :
+    m ∈ Texel.pseudoLegalMoves p k ↔ pseudo p m = true := Texel.mem_pseudoLegalMoves p k h m
+
+/-- …and never emits a move twice -/
+theorem texel_pseudoLegal_nodup (p : Pos) (k : Sq) (h : Texel.GenWF p k) : (Texel.pseudoLegalMoves p k).Nodup :=
+  Texel.nodup_pseudoLegalMoves p k h
+
+/-- **The list the engine treats as the legal moves (`pseudoLegalMoves` then `removeIllegal`) is a permutation of the
+    legal moves of chess.** -/
+theorem texel_legal_eq (p : Pos) (k : Sq) (h : Texel.GenWF p k) :
+    (Texel.removeIllegal p k (Texel.pseudoLegalMoves p k)).Perm (genLegal p) := Texel.texel_legal_perm p k h
+
+/-- **`MoveGen::pseudoLegalCaptures`** (moveGen.cpp:386-456) omits no pseudo-legal — hence no legal — capture of its class
+    (captures incl. en passant, promotion piece queen or knight) -/
+theorem texel_captures_complete (p : Pos) (k : Sq) (h : Texel.GenWF p k) (m : Mv) (hp : pseudo p m = true)
+    (hc : capClass p m = true) : m ∈ Texel.pseudoLegalCaptures p k := Texel.captures_complete p k h m hp hc
+
+/-- **`MoveGen::checkEvasions`** (moveGen.cpp:148-250) omits no legal move when the side to move is in check: a legal reply
+    other than a king move or an en-passant capture must capture the only checking piece or land between it and the king
+    (`kingThreats` has one bit, `validTargets = kingThreats | squaresBetween`).  Extra hypothesis: the kings are not adjacent. -/
+theorem texel_evasions_complete (p : Pos) (k : Sq) (h : Texel.GenWF p k)
+    (hkk : ∀ q, p.b[q] = Texel.pc (!p.wtm) 1 → Texel.kingGeom k q = false)
+    (hchk : inCheck p.b p.wtm = true) (m : Mv) (hl : legalB p m = true) : m ∈ Texel.checkEvasions p k :=
+  Texel.evasions_complete p k h hkk hchk m hl
+
+theorem texel_kingsApart_of_check (p : Pos) (k : Sq) (h : Texel.kingsApartB p k = true) :
+    ∀ q, p.b[q] = Texel.pc (!p.wtm) 1 → Texel.kingGeom k q = false := Texel.kingsApart_of_b p k h
+
+/-- the decidable form of the hypotheses, evaluated by the driver on every tested position -/
+theorem texel_genWF_of_check (p : Pos) (k : Sq) (h : Texel.genWFb p k = true) : Texel.GenWF p k := Texel.genWF_of_b p k h
+
+-- non-vacuity of the generator hypotheses: a bare-kings position
+example : Texel.GenWF { b := (Vector.replicate 64 0 |>.set 0 WKING |>.set 63 BKING), wtm := true, castle := 0, ep := none, hmc := 0, fmc := 1 } (sq 0) :=
+  Texel.genWF_of_b _ _ (by decide)
 
 -- non-vacuity: the acceptor's hypotheses are satisfiable (the initial position with the real generator's data
 -- is accepted on every run by the check; here a tiny artificial instance: a bare-kings position)
